@@ -91,7 +91,59 @@ def m_len_components(it, a, ty, callee):
     raise Inconclusive('Multiaddr::len (byte length) is not modelled')
 
 
+def _reference_body(it, method, first_arg):
+    """the reference implementation (libp2p-identity, interpreted from its own MIR dump)"""
+    for name, b in it.bodies.items():
+        if name.startswith('libp2p_identity::peer_id::<impl at') and name.endswith('>::' + method) and b.args and b.args[0][1] == first_arg:
+            return b
+    return None
+
+
+def m_ref_from_multihash(it, a, ty, callee):
+    b = _reference_body(it, 'from_multihash', 'multihash::Multihash<64>')
+    if b is None:
+        return m_peerid_try_from_model(it, a, ty, callee)
+    return it.call_body(b, [as_mh(it, a[0])])
+
+
+def m_ref_from_bytes(it, a, ty, callee):
+    b = _reference_body(it, 'from_bytes', '&[u8]')
+    if b is None:
+        raise Inconclusive('reference PeerId::from_bytes body not in the libp2p-identity dump')
+    return it.call_body(b, [a[0]])
+
+
+def m_mh_from_bytes(it, a, ty, callee):
+    """multihash::Multihash::<64>::from_bytes: varint code, varint size (<= 64), exactly `size` digest bytes, nothing after.
+    The two varints are decoded by the real unsigned_varint::decode::u64 (interpreted from that crate's MIR)."""
+    p = a[0]
+    def varint(ptr):
+        r = it.call('unsigned_varint::decode::u64', [ptr], None)
+        if r.variant == 1:
+            return None
+        return r.fields[0].fields
+    r = varint(p)
+    if r is None:
+        return res_err(Adt('multihash::Error', 0, ()))
+    code, rest = r
+    r = varint(rest)
+    if r is None:
+        return res_err(Adt('multihash::Error', 0, ()))
+    size, rest = r
+    data = it.load(rest).fields
+    if not it.branch(it.binop('Le', size, Int(64, 64))):
+        return res_err(Adt('multihash::Error', 0, ()))
+    # read_exact(size) then "no bytes left": the remaining length must equal size
+    if not it.branch(it.veq(size, Int(len(data), 64))):
+        return res_err(Adt('multihash::Error', 0, ()))
+    return res_ok(Mh(code, data))
+
+
 def m_peerid_try_from(it, a, ty, callee):
+    return m_ref_from_multihash(it, a, ty, callee)
+
+
+def m_peerid_try_from_model(it, a, ty, callee):
     # libp2p_identity::PeerId::from_multihash: sha2-256 (any length), or identity with a digest of <= 42 bytes
     mh = as_mh(it, a[0])
     if it.branch(it.veq(mh.code, Int(0x12, 64))):
@@ -159,7 +211,7 @@ def peer_mh(v):
 
 def as_mh(it, v):
     v = deref(it, v)
-    if isinstance(v, Adt) and v.ty in ('multiaddr::PeerId', 'peer_id::PeerId'):
+    if isinstance(v, Adt) and v.ty in ('multiaddr::PeerId', 'peer_id::PeerId', 'libp2p_identity::peer_id::PeerId'):
         v = v.fields[0]
     if not isinstance(v, Mh):
         raise Inconclusive('not a multihash: %r' % (v,))
@@ -192,12 +244,31 @@ def varint_bytes(n):
             return out
 
 
+def varint_ints(it, x):
+    """unsigned-varint encoding of a (possibly symbolic) u64 as a list of byte Ints; the length is decided by a fork"""
+    if x.conc:
+        return [Int(b, 8) for b in varint_bytes(x.v)]
+    z = x.z()
+    conds = []
+    for k in range(1, 11):
+        hi = z3.ULT(z, z3.BitVecVal(1 << (7 * k), 64)) if k < 10 else True
+        lo = z3.UGE(z, z3.BitVecVal(1 << (7 * (k - 1)), 64)) if k > 1 else True
+        c = hi if lo is True else (lo if hi is True else z3.And(lo, hi))
+        conds.append(c)
+    k = it.choose(10, conds) + 1
+    out = []
+    for i in range(k):
+        b = z3.Extract(7, 0, z3.LShR(z, z3.BitVecVal(7 * i, 64))) & z3.BitVecVal(0x7f, 8)
+        if i < k - 1:
+            b = b | z3.BitVecVal(0x80, 8)
+        out.append(Int(b, 8))
+    return out
+
+
 def m_mh_to_bytes(it, a, ty, callee):
     mh = as_mh(it, a[0])
-    if not mh.code.conc:
-        raise Inconclusive('Multihash::to_bytes with a symbolic code')
-    hdr = varint_bytes(mh.code.v) + varint_bytes(len(mh.digest))
-    return Seq([Int(b, 8) for b in hdr] + list(mh.digest), 'vec')
+    hdr = varint_ints(it, mh.code) + [Int(b, 8) for b in varint_bytes(len(mh.digest))]
+    return Seq(hdr + list(mh.digest), 'vec')
 
 
 def m_mh_wrap(it, a, ty, callee):
@@ -277,6 +348,10 @@ def install(it):
     it.add_model(r'multihash::Multihash::<64>::size', m_mh_size)
     it.add_model(r'multihash::Multihash::<64>::to_bytes', m_mh_to_bytes)
     it.add_model(r'multihash::Multihash::<64>::wrap', m_mh_wrap)
+    it.add_model(r'multihash::Multihash::<64>::from_bytes', m_mh_from_bytes)
+    it.add_model(r'(multiaddr|libp2p_identity)::PeerId::from_bytes', m_ref_from_bytes)
+    it.add_model(r'(multiaddr|libp2p_identity)::PeerId::from_multihash', m_ref_from_multihash)
+    it.add_model(r'(multiaddr|libp2p_identity)::PeerId::to_bytes', m_mh_to_bytes)
     it.add_model(r'<multihash::Multihash<64> as std::convert::From<multiaddr::PeerId>>::from', m_mh_from_peerid)
     it.add_model(r'<multiaddr::PeerId as std::convert::Into<multihash::Multihash<64>>>::into', m_mh_from_peerid)
     it.add_model(r'<ip_network::IpNetwork as std::convert::From<std::net::Ipv[46]Addr>>::from', lambda it, a, ty, c: a[0])
